@@ -948,6 +948,12 @@ class Interp:
                 local.add(n.id)
         reads = sorted({n.id for n in ast.walk(fnode) if isinstance(n, ast.Name) and isinstance(n.ctx, ast.Load) and n.id not in local
                         and n.id not in BUILTIN_NAMES and self._may_be_mutable_global(clo.module, n.id)})
+        # the cache is keyed by the ARGUMENTS (identity / equality at the time of the call); the body computes from their current STATE:
+        # an argument that is a mutable object (a function whose __defaults__ / __code__ can be reassigned, an instance, a list ...) may
+        # have changed since the call whose result is handed back
+        mutable_args = [a for a in list(args) + list(kwargs.values()) if isinstance(a, (Opaque, SObj, PyList, PyDict, SList, SDict))]
+        if mutable_args:
+            reads = reads + ["<state of a mutable argument>"]
         if not reads:
             return cur
         if self.ctx.choose(2, "cached-call:%s" % fnode.name) == 0:
